@@ -34,6 +34,25 @@
    its `ent`ries: which contracts / classes (named by the content id of the block that created
    them) sit in which of the four sections; what exists is derived from the applied diffs.
 
+   Presence / value classes.  "Differs in a committed field" is not only "carries another non-zero
+   value": the wire and core representations tell an ABSENT field (no map entry, empty array, not
+   reverted) from a PRESENT-ZERO one ((0,0) resource bound, felt 0, the array [0], reverted with the
+   empty reason) from a present NON-ZERO one, and the protocol's preimages do too (a packed all-zero
+   l1_data_gas bound still carries its resource name; poseidon([0]) is not poseidon([]); keccak("")
+   is not 0).  So the content of a block also has a class assignment ClassFields -> Classes
+   (ClsAt: given by its shape for the builder's block - ShapeClass - with at most one field moved,
+   `rc`), the hashes are injective terms of
+   (committed field -> class) as well, and OfferReclass moves ONE field to another class with every
+   declared hash kept: absent->zero, zero->absent, zero->nonzero, ... (rejected), while valid blocks
+   whose fields are in every class are offered untampered (accepted).  Two views of the classes are
+   kept apart: the PROTOCOL's (TxHashOf / HashOf: what a valid block declares; ProtoSame[v] lists
+   the fields whose zero/empty value the protocol itself hashes like the absent one - the 0.13.2
+   transaction leaf hashes an empty signature as [0]) and the CODE's (CodeTxHashOf / CodeHashOf:
+   what the verifier recomputes; ZeroAsAbsent = the fields whose present-zero value the code treats
+   as absent; {} is the code as it is).  A non-empty ZeroAsAbsent breaks both directions: a tamper
+   absent<->zero is accepted (TamperRejected) and a valid block with the zero class is rejected
+   (ValidAccepted).
+
    One action = one offer run through the pipeline exactly as sync does: SanityCheckNewHeight, then
    Store; sync verifies several blocks ahead of the one being stored, which VerifyAhead /
    StorePending model.  `act`, `res`, `cur` are output-only. *)
@@ -59,6 +78,21 @@ CONSTANTS
   CasmV2From,        \* index in Versions from which classes are declared with the V2 compiled class hash
                      \* and the `migrated` section exists
   MaxPending,        \* blocks verified ahead and not yet stored
+  (* presence / value classes of committed fields *)
+  ClassFields,       \* the committed fields that have a class dimension (representatives, see MCBlockVerify)
+  TxClassFields,     \* ... those committed through a TRANSACTION hash (the others through the block hash)
+  ClassOf,           \* [ClassFields -> SUBSET Classes]: the classes the representation can carry
+  ValidClassOf,      \* [ClassFields -> SUBSET Classes]: the classes a protocol-valid block can carry (a v3
+                     \* transaction without an L1_GAS / L2_GAS bound is malformed)
+  ClassIn,           \* [version -> SUBSET ClassFields]: the class fields that exist in that version
+  ShapeClass,        \* [shape -> [ClassFields -> Classes \cup {"none"}]]: the class of each field in the builder's
+                     \* block of that shape ("none": the shape has no carrier of the field)
+  ProtoSame,         \* [version -> SUBSET ClassFields]: the protocol itself hashes present-zero like absent
+  ZeroAsAbsent,      \* SUBSET ClassFields: the CODE hashes present-zero like absent ({} = the code as it is)
+  MalformedRefused,  \* a transaction in a class no valid transaction has (a v3 transaction without an L1_GAS or
+                     \* L2_GAS bound: there is no preimage) is refused.  TRUE = repaired; FALSE = the code as it is:
+                     \* the hash function dereferences the missing bound and the verifier crashes (finding
+                     \* block-verify:crash:invalid-class*)
   (* design switches; TRUE/TRUE/TRUE/FALSE is the code as it is.  The other settings are used as
      self-tests of the properties below (TLC must find the violation). *)
   SuccessionChecked, \* Store runs verifyBlockSuccession
@@ -159,11 +193,46 @@ Alter(k, e, s) ==
     [] k = "migrate-again" -> [e EXCEPT !.migrated = @ \cup {Oldest(Migrated(s))}]
 
 --------------------------------------------------------------------------------
-(* hashes, as injective terms over what is committed *)
-TxHashOf(b) == <<b.cid, (b.alt \cap Committed[b.version]) \cap TxFields>>
+(* presence / value classes *)
+Classes == {"absent", "zero", "nonzero"}
+(* the class of field f in block b: the builder's (given by the shape), or the one it was moved to *)
+ClsAt(b, f) == IF b.rc # <<>> /\ b.rc[1] = f THEN b.rc[2] ELSE ShapeClass[b.cid[2]][f]
+(* how a hash function that does not tell present-zero from absent for the fields in S sees a class *)
+SeenAs(c, f, S) == IF f \in S /\ c = "zero" THEN "absent" ELSE c
+(* An injective image of the class assignment [f \in F \cap ClassIn[version] |-> SeenAs(ClsAt(b, f), f, S)] AS SUCH A
+   FUNCTION SEES IT.  The content id fixes the builder's assignment, so the seen assignment is given by
+   (i) the builder's present-zero fields the function is blind to and (ii) the one moved field with the
+   class the function sees there - unless it sees no difference.  (TLC checks the equivalence with the
+   explicit function for every version, shape, field and pair of classes: ClassTermFaithful.) *)
+Blind(v, s, S, F) == {f \in (S \cap ClassIn[v]) \cap F : ShapeClass[s][f] = "zero"}
+Moved(b, S, F) ==
+  IF b.rc = <<>> \/ b.rc[1] \notin ClassIn[b.version] \cap F THEN <<>>
+  ELSE LET f == b.rc[1] IN
+       IF SeenAs(b.rc[2], f, S) = SeenAs(ShapeClass[b.cid[2]][f], f, S) THEN <<>>
+       ELSE <<f, SeenAs(b.rc[2], f, S)>>
+ClassTerm(b, S, F) == IF S = {} /\ b.rc = <<>> THEN <<{}, <<>>>>      \* (shortcut, same value)
+                      ELSE <<Blind(b.version, b.cid[2], S, F), Moved(b, S, F)>>
+ProtoBlind(b) == ProtoSame[b.version]                       \* the protocol's own conflations
+CodeBlind(b) == ProtoSame[b.version] \cup ZeroAsAbsent       \* ... plus the code's
 
-HashOf(b) == <<b.version, b.number, b.parent, b.root, b.cid,
-               (b.alt \cap Committed[b.version]) \ (TxFields \cup SuFields), b.txh, Merged(b.ent)>>
+(* hashes, as injective terms over what is committed: field -> (presence / value class, value) *)
+TxHashOfC(b, S) == <<b.cid, (b.alt \cap Committed[b.version]) \cap TxFields, ClassTerm(b, S, TxClassFields)>>
+HashOfC(b, S) == <<b.version, b.number, b.parent, b.root, b.cid,
+                   (b.alt \cap Committed[b.version]) \ (TxFields \cup SuFields), b.txh, Merged(b.ent),
+                   ClassTerm(b, S, ClassFields \ TxClassFields)>>
+(* the protocol's (what a valid block declares) and the code's (what the verifier recomputes) *)
+TxHashOf(b) == TxHashOfC(b, ProtoBlind(b))
+HashOf(b) == HashOfC(b, ProtoBlind(b))
+CodeTxHashOf(b) == TxHashOfC(b, CodeBlind(b))
+CodeHashOf(b) == HashOfC(b, CodeBlind(b))
+
+ClassTermFaithful ==
+  \A v \in VSet, s \in Shapes : \A f \in ClassIn[v] : ShapeClass[s][f] = "none" \/
+    \A S \in {ProtoSame[v], ProtoSame[v] \cup ZeroAsAbsent}, F \in {TxClassFields, ClassFields \ TxClassFields} :
+      \A c1, c2 \in ClassOf[f] :
+        LET blk(c) == [cid |-> <<0, s, v>>, version |-> v, rc |-> IF c = ShapeClass[s][f] THEN <<>> ELSE <<f, c>>]
+        IN f \in F => ((SeenAs(c1, f, S) = SeenAs(c2, f, S)) <=> (ClassTerm(blk(c1), S, F) = ClassTerm(blk(c2), S, F)))
+ASSUME ClassTermFaithful
 
 DiffOf(b) == <<b.cid, b.alt \cap SdFields>>
 (* a diff without entries changes nothing: the root after it is the root before it *)
@@ -183,18 +252,24 @@ Rehash(b) == LET b1 == [b EXCEPT !.txh = TxHashOf(b)] IN [b1 EXCEPT !.hash = Has
 Pristine(v, var) ==
   LET c == <<Len(chain), var, v>>
       b0 == [cid |-> c, number |-> Len(chain), parent |-> HeadHash, version |-> v, alt |-> {},
+             rc |-> <<>>,
              oldRoot |-> state, root |-> state, classOK |-> TRUE,
-             txh |-> <<c, {}>>, hash |-> Zero, ent |-> Ent(c, state)]
+             txh |-> Zero, hash |-> Zero, ent |-> Ent(c, state)]
       b1 == [b0 EXCEPT !.root = RootAfter(state, b0)]
-  IN [b1 EXCEPT !.hash = HashOf(b1)]
+  IN Rehash(b1)
 
 --------------------------------------------------------------------------------
+(* the moved field is in a class no protocol-valid transaction has: the transaction hash has no preimage *)
+Malformed(b) == /\ b.rc # <<>> /\ b.rc[1] \in ClassIn[b.version] \cap TxClassFields
+                /\ b.rc[2] \notin ValidClassOf[b.rc[1]]
+
 (* the two stages of the pipeline, in the order of the code's checks *)
 VerifyWhy(b) ==
   IF b.alt \cap SuFields # {} THEN "su"                           \* SanityCheckNewHeight lines 1-2
   ELSE IF ~b.classOK THEN "class"                                 \* core.VerifyClassHashes
-  ELSE IF TxHashesChecked /\ b.txh # TxHashOf(b) THEN "txhash"    \* core.VerifyTransactions
-  ELSE IF b.hash # HashOf(b) THEN "hash"                          \* core.BlockHash comparison
+  ELSE IF TxHashesChecked /\ Malformed(b) THEN (IF MalformedRefused THEN "malformed" ELSE "crash")
+  ELSE IF TxHashesChecked /\ b.txh # CodeTxHashOf(b) THEN "txhash" \* core.VerifyTransactions
+  ELSE IF b.hash # CodeHashOf(b) THEN "hash"                      \* core.BlockHash comparison
   ELSE "ok"
 
 StoreWhy(b) ==
@@ -229,13 +304,15 @@ StoreStage(b) ==
 Process(b) ==
   /\ cur' = b
   /\ LET vw == VerifyWhy(b) IN
-     IF vw # "ok" THEN Reject("verify", vw) /\ db' = db ELSE StoreStage(b)
+     IF vw = "crash"
+     THEN UNCHANGED <<chain, state>> /\ db' = db /\ res' = [kind |-> "crashed", stage |-> "verify", why |-> vw]
+     ELSE IF vw # "ok" THEN Reject("verify", vw) /\ db' = db ELSE StoreStage(b)
   /\ UNCHANGED pending
 
 --------------------------------------------------------------------------------
 CanGrow == Len(chain) < MaxLen
 NextVersions == {Versions[i] : i \in HeadVIdx..Len(Versions)}
-Act(name, v, var, f, kind) == [name |-> name, v |-> v, var |-> var, f |-> f, kind |-> kind, seal |-> "", h |-> Len(chain)]
+Act(name, v, var, f, kind) == [name |-> name, v |-> v, var |-> var, f |-> f, kind |-> kind, seal |-> "", from |-> "", h |-> Len(chain)]
 
 (* a valid successor of the head *)
 Offer(v, var) ==
@@ -248,6 +325,19 @@ OfferTampered(v, var, f) ==
   /\ CanGrow /\ v \in NextVersions /\ f \in Committed[v] \cap Targets[var]
   /\ act' = Act("OfferTampered", v, var, f, "")
   /\ Process([Pristine(v, var) EXCEPT !.alt = {f}])
+
+(* a valid successor with exactly one committed field moved to another presence / value class
+   (absent -> present-zero, present-zero -> absent, present-zero -> non-zero, ...; kind = the class
+   it is moved to); every declared hash is kept.  Offered only when the protocol tells the two
+   classes apart in this version. *)
+OfferReclass(v, var, f, c) ==
+  /\ CanGrow /\ v \in NextVersions
+  /\ f \in ClassIn[v] /\ ShapeClass[var][f] # "none" /\ c \in ClassOf[f] \ {ShapeClass[var][f]}
+  /\ LET p == Pristine(v, var)
+         b == [p EXCEPT !.rc = <<f, c>>]
+     IN /\ Moved(b, ProtoBlind(b), ClassFields) # <<>>
+        /\ act' = [Act("OfferReclass", v, var, f, c) EXCEPT !.from = ShapeClass[var][f]]
+        /\ Process(b)
 
 (* hash-valid blocks that do not continue the head *)
 OfferWrongParent(v, var) ==
@@ -320,7 +410,7 @@ StorePending(b) ==
   /\ (Len(chain) < MaxLen \/ StoreWhy(b) # "ok")
   /\ pending' = pending \ {b}
   /\ cur' = b
-  /\ act' = [name |-> "StorePending", v |-> b.version, var |-> b.cid[2], f |-> "", kind |-> "", seal |-> "", h |-> b.cid[1]]
+  /\ act' = [name |-> "StorePending", v |-> b.version, var |-> b.cid[2], f |-> "", kind |-> "", seal |-> "", from |-> "", h |-> b.cid[1]]
   /\ StoreStage(b)
 
 (* the node restarts: new objects over the same database (gracefully - the running event filter is
@@ -340,6 +430,7 @@ Init ==
 Next ==
   \/ \E v \in VSet, var \in Shapes : Offer(v, var)
   \/ \E v \in VSet, var \in Shapes, f \in AllFields : OfferTampered(v, var, f)
+  \/ \E v \in VSet, var \in Shapes, f \in ClassFields, c \in Classes : OfferReclass(v, var, f, c)
   \/ \E v \in VSet, var \in Shapes : OfferWrongParent(v, var)
   \/ \E v \in VSet, var \in Shapes, k \in {"skip", "repeat"} : OfferWrongNumber(v, var, k)
   \/ \E v \in VSet, var \in Shapes, k \in {"root", "diff", "oldroot"}, sl \in {"resealed", "kept"} :
@@ -369,6 +460,8 @@ StoredChainValid ==
     LET b == chain[i] IN
     /\ Valid(b)
     /\ b.alt \cap Committed[b.version] = {}       \* and differs from the builder's block in no committed field
+    /\ b.rc = <<>>                                \* ... nor in the presence / value class of one
+    /\ \A f \in ClassIn[b.version] : ClsAt(b, f) \in ValidClassOf[f] \cup {"none"}
     /\ b.number = i - 1
     /\ b.parent = (IF i = 1 THEN Zero ELSE chain[i - 1].hash)
     /\ b.root = StateOf(i)
@@ -402,7 +495,7 @@ RejectedUnchanged ==
 (* any single committed-field difference from a valid block is rejected; so is every
    non-continuing / wrong-root / stale-class offer; every valid successor is accepted *)
 TamperRejected ==
-  [][act'.name \in {"OfferTampered", "OfferWrongParent", "OfferWrongNumber", "OfferWrongRoot",
+  [][act'.name \in {"OfferTampered", "OfferReclass", "OfferWrongParent", "OfferWrongNumber", "OfferWrongRoot",
                     "OfferStaleClassHash", "OfferInapplicable"} => res'.kind = "rejected"]_vars
 
 (* the inapplicable offers are exactly the ones the hash and root checks cannot decide: every
